@@ -31,6 +31,33 @@ func hMixedList(n int) List {
 	return l
 }
 
+// user-defined containers (structs embedding List/Object, registered with Init) are elements of kind
+// list / object like any other: the typed views hand them out
+func H_C14_derived_container_elements() {
+	x := nondetInt()
+	dl := hDerivedList(x)
+	do := hDerivedObject("q", x)
+	l := NewList(do, x, dl, NewObject(), NewList())
+	o := NewObject("a", do, "b", dl, "c", x)
+	os, ls := l.ObjectSlice(), l.ListSlice()
+	verifAssert(len(os) == 2 && os[0] == do && len(ls) == 2 && ls[0] == dl, "ObjectSlice / ListSlice = the objects / lists, in order, each once")
+	var seenO []Object
+	var seenL []List
+	l.ForEachObject(func(v Object) { seenO = append(seenO, v) })
+	l.ForEachList(func(v List) { seenL = append(seenL, v) })
+	o.ForEachObject(func(v Object) { seenO = append(seenO, v) })
+	o.ForEachList(func(v List) { seenL = append(seenL, v) })
+	verifAssert(len(seenO) == 3 && seenO[0] == do && seenO[2] == do && len(seenL) == 3 && seenL[0] == dl && seenL[2] == dl, "ForEachObject / ForEachList visit exactly the objects / lists")
+	fo := l.FilterObjects(func(v Object) bool { return true })
+	fl := l.FilterLists(func(v List) bool { return true })
+	mo := l.MapObjects(func(v Object) any { return 1 })
+	ml := l.MapLists(func(v List) any { return 1 })
+	verifAssert(fo.Count() == 2 && fl.Count() == 2 && mo.Count() == 2 && ml.Count() == 2, "FilterX / MapX operate on exactly the elements whose TypeOf is X")
+	verifAssert(!l.AllObjects() && NewList(do, NewObject()).AllObjects() && NewList(dl).AllLists(), "AllX holds exactly when every element has kind X")
+	verifAssert(l.TypeOf(0) == TypeObject && l.TypeOf(2) == TypeList && o.TypeOf("a") == TypeObject && o.TypeOf("b") == TypeList, "TypeOf reports the kind of a stored user-defined container")
+	verifReach("end")
+}
+
 func hSel(snap mval, k Type) []mval {
 	var out []mval
 	for _, e := range snap.elem {
